@@ -12,6 +12,7 @@ import z3
 
 from .values import *  # noqa
 from . import rx
+from .abstract import abstract
 from .extract import strip_dropped
 
 
@@ -95,6 +96,45 @@ def exc_isa(n, base):
     return False
 
 
+class PC(list):
+    """Path condition: a list of z3 Bools mirrored lazily into one incremental solver."""
+
+    def __init__(self, eng):
+        super().__init__()
+        self.eng = eng
+        self._solver = None
+        self._fed = 0
+
+    def mark(self):
+        s = self.solver()
+        s.push()
+        return len(self)
+
+    def reset_to(self, mark, pop=True):
+        del self[mark:]
+        if self._solver is not None:
+            # everything fed after the mark lives in the pushed scope
+            self._solver.pop()
+            self._fed = mark
+            if not pop:
+                self._solver.push()
+
+    def solver(self):
+        """Incremental solver over the string-free abstraction of the path condition."""
+        if self._solver is None:
+            self._solver = z3.Solver()
+            self._solver.set("timeout", self.eng.feas_timeout)
+            self._fed = 0
+        while self._fed < len(self):
+            self._solver.add(abstract(self[self._fed]))
+            self._fed += 1
+        return self._solver
+
+
+class _MergeAbort(Exception):
+    pass
+
+
 class VC:
     def __init__(self, name, pc, goal, kind, site, path, note=""):
         self.name = name
@@ -131,12 +171,13 @@ class Engine:
         self.target_name = target_name
         self.vcs = {}
         self.npaths = 0
-        self.feas_timeout = 1500
+        self.feas_timeout = int(__import__('os').environ.get('PYVC_FEAS_MS', '400'))
         self.assumptions_used = set()
         self.inlined = set()
         self.callees_by_contract = set()
         self.stats = {"stmts": 0, "dropped": 0}
         self.max_paths = 4000
+        self.no_branch = False
 
     # ---- path driver -------------------------------------------------------------
     def run_all(self, body_fn):
@@ -144,7 +185,7 @@ class Engine:
         self.decisions = []
         while True:
             self.pos = 0
-            self.pc = []
+            self.pc = PC(self)
             self.fresh_ctr = {}
             self.site_ctr = {}
             self.ghost = {}
@@ -165,12 +206,13 @@ class Engine:
             d[1] = False
 
     def feasible(self, extra):
-        s = z3.Solver()
-        s.set("timeout", self.feas_timeout)
-        for c in self.pc:
-            s.add(c)
-        s.add(extra)
-        return s.check() != z3.unsat
+        s = self.pc.solver()
+        s.push()
+        try:
+            s.add(abstract(extra))
+            return s.check() != z3.unsat
+        finally:
+            s.pop()
 
     def branch(self, cond):
         """Decide a Python-level boolean.  cond: bool | z3 Bool."""
@@ -181,6 +223,8 @@ class Engine:
             return True
         if z3.is_false(cond):
             return False
+        if self.no_branch:
+            raise OutOfSubset("branch on %s inside a quantified context" % cond)
         if self.pos < len(self.decisions):
             val = self.decisions[self.pos][0]
         else:
@@ -201,11 +245,145 @@ class Engine:
         self.pc.append(cond if val else z3.Not(cond))
         return val
 
+    def eval_merged(self, thunk):
+        """Evaluate a pure scalar computation (a contract clause, a spec function) on all of its
+        internal paths and merge the results into one if-then-else term, instead of forking the
+        caller's path.  Falls back to ordinary forking when a sub-path raises or the result is not
+        a scalar."""
+        if self.no_branch:
+            return thunk()
+        outer_dec, outer_pos = self.decisions, self.pos
+        base_ctr, base_site = dict(self.fresh_ctr), dict(self.site_ctr)
+        base_len = self.pc.mark()
+        results = []
+        local = []
+        ok = True
+        max_ctr = dict(base_ctr)
+        nsub = 0
+        try:
+            while True:
+                nsub += 1
+                if nsub > 400:
+                    ok = False
+                    break
+                self.decisions, self.pos = local, 0
+                self.fresh_ctr, self.site_ctr = dict(base_ctr), dict(base_site)
+                try:
+                    v = thunk()
+                    if isinstance(v, VOpt):
+                        v = self.force(v)
+                    results.append((list(self.pc[base_len:]), v))
+                except PathEnd:
+                    pass
+                except (Raised, ReturnEx, BreakEx, ContinueEx):
+                    ok = False
+                for k, val in self.fresh_ctr.items():
+                    if val > max_ctr.get(k, 0):
+                        max_ctr[k] = val
+                self.pc.reset_to(base_len, pop=False)
+                if not ok:
+                    break
+                while local and not local[-1][1]:
+                    local.pop()
+                if not local:
+                    break
+                local[-1][0] = not local[-1][0]
+                local[-1][1] = False
+        finally:
+            self.pc.reset_to(base_len, pop=True)
+            self.decisions, self.pos = outer_dec, outer_pos
+            self.site_ctr = base_site
+            self.fresh_ctr = max_ctr if ok else base_ctr
+        if ok:
+            merged = self._merge(results)
+            if merged is not None:
+                return merged
+            self.fresh_ctr = base_ctr
+        return thunk()
+
+    def _merge(self, results):
+        if not results:
+            raise PathEnd()
+        if len(results) == 1:
+            for c in results[0][0]:
+                self.pc.append(c)
+            return results[0][1]
+        vals = [v for _, v in results]
+        guards = [z3.And(*g) if len(g) > 1 else (g[0] if g else z3.BoolVal(True)) for g, _ in results]
+        if all(isinstance(v, bool) or z3.is_bool(v) for v in vals):
+            vals = [VBool(v) for v in vals]
+            asbool = True
+        else:
+            asbool = False
+        def ite(mk):
+            t = mk(vals[-1])
+            for g, v in zip(reversed(guards[:-1]), reversed(vals[:-1])):
+                t = z3.If(g, mk(v), t)
+            return t
+        out = None
+        if all(isinstance(v, VBool) for v in vals):
+            out = VBool(z3.simplify(ite(lambda v: zbool(v.z))))
+        elif all(isinstance(v, VInt) for v in vals):
+            out = VInt(ite(lambda v: zint(v.z)))
+        elif all(isinstance(v, VStr) for v in vals) and len({v.isbytes for v in vals}) == 1:
+            out = VStr(ite(lambda v: zstr(v.z)), vals[0].isbytes)
+        elif all(v is NONE for v in vals):
+            out = NONE
+        elif all(isinstance(v, VBool) or not isinstance(v, V) for v in vals):
+            out = None
+        if out is None:
+            return None
+        self.pc.append(z3.Or(*guards))
+        if asbool:
+            return out.z
+        return out
+
+    def branch_fresh(self, hint):
+        """Branch on a brand-new Boolean (pure nondeterminism): both sides are feasible by construction."""
+        b = z3.Bool(self.fresh_name(hint))
+        if self.no_branch:
+            raise OutOfSubset("nondeterministic choice inside a quantified context")
+        if self.pos < len(self.decisions):
+            val = self.decisions[self.pos][0]
+        else:
+            val = True
+            self.decisions.append([True, True])
+        self.pos += 1
+        self.pc.append(b if val else z3.Not(b))
+        return val
+
+    def implied_int(self, term):
+        """The integer value the path condition forces `term` to have, or None."""
+        t = z3.simplify(term)
+        if z3.is_int_value(t):
+            return t.as_long()
+        for c in reversed(self.pc):
+            if z3.is_eq(c):
+                a, b = c.children()
+                if z3.is_int_value(b) and a.eq(t):
+                    return b.as_long()
+                if z3.is_int_value(a) and b.eq(t):
+                    return a.as_long()
+        s = self.pc.solver()
+        ta = abstract(t)
+        s.push()
+        try:
+            if s.check() != z3.sat:
+                return None
+            v = s.model().eval(ta, model_completion=True)
+            if not z3.is_int_value(v):
+                return None
+            s.add(ta != v)
+            if s.check() == z3.unsat:
+                return v.as_long()
+            return None
+        finally:
+            s.pop()
+
     def choose(self, n, label=""):
         """Nondeterministic choice among n alternatives (returns index)."""
         for i in range(n - 1):
-            b = z3.Bool(self.fresh_name("choice_%s_%d" % (label, i)))
-            if self.branch(b):
+            if self.branch_fresh("choice_%s_%d" % (label, i)):
                 return i
         return n - 1
 
@@ -398,7 +576,7 @@ class Engine:
                 return self.and_([self.eq(x, y) for x, y in zip(a.items, b.items)])
             if a is b:
                 return True
-            raise OutOfSubset("equality of symbolic lists")
+            return self.list_eq(a, b)
         if isinstance(a, VOpaque) and isinstance(b, VOpaque):
             if a.z is not None and b.z is not None:
                 return a.z == b.z
@@ -407,9 +585,35 @@ class Engine:
             return a.name == b.name
         if isinstance(a, VObj) and isinstance(b, VObj):
             return a is b
+        if isinstance(a, VDict) and isinstance(b, VDict):
+            if a is b:
+                return True
+            raise OutOfSubset("equality of distinct dict values")
         if type(a) is not type(b):
             return False
         return a is b
+
+    def list_eq(self, a, b):
+        """Extensional equality of lists: equal lengths and equal elements at every index
+        (universally quantified index)."""
+        an, bn = zint(self.list_len(a)), zint(self.list_len(b))
+        i = z3.Int(self.fresh_name("qi"))
+        saved = self.no_branch
+        self.no_branch = True
+        try:
+            ea = self.list_get(a, i) if not a.concrete() else None
+            eb = self.list_get(b, i) if not b.concrete() else None
+            if ea is None or eb is None:
+                # one side concrete: compare element by element
+                conc, sym = (a, b) if a.concrete() else (b, a)
+                parts = [zint(self.list_len(sym)) == len(conc.items)]
+                for j, x in enumerate(conc.items):
+                    parts.append(zbool(self.eq(x, self.list_get(sym, j))))
+                return z3.And(*parts)
+            body = zbool(self.eq(ea, eb))
+        finally:
+            self.no_branch = saved
+        return z3.And(an == bn, z3.ForAll([i], z3.Implies(z3.And(i >= 0, i < an), body)))
 
     def num(self, v):
         if isinstance(v, VBool):
@@ -1334,7 +1538,9 @@ class Engine:
                 self.raise_("AttributeError", site=getattr(node, "lineno", None))
             live = getattr(obj, "live", None)
             if live is not None and (attr in live.fieldty or attr in live.entry):
-                return self.entry_value(live, attr, node)
+                v = _oldview(self.entry_value(live, attr, node))
+                obj.fields[attr] = v
+                return v
             if attr in obj.fieldty and not getattr(obj, "fresh_alloc", False):
                 try:
                     v = self.entry_value(obj, attr, node)
@@ -1439,6 +1645,18 @@ class Engine:
 
     def ev_Starred(self, e, fr):
         raise OutOfSubset("starred")
+
+
+def _oldview(v):
+    """Entry-state view of a lazily materialised nested object: reads go to the entry values only."""
+    if isinstance(v, VObj):
+        o = VObj(v.cls, name=v.name)
+        o.fieldty = v.fieldty
+        o.live = v
+        return o
+    if isinstance(v, VOpt):
+        return VOpt(v.isnone, _oldview(v.inner))
+    return v
 
 
 def _cmp(op, x, y):
